@@ -176,8 +176,90 @@ func runC12(c *CheckCtx) {
 	c.evalAssumptions()
 }
 
+// deferredOutcomeStores: stores made by functions deferred in f (closures) into f's own named
+// results: the deferred reports of the debugger section may read the outcome, not replace it.
+func deferredOutcomeStores(f *ssa.Function) []ssa.Instruction {
+	named := map[ssa.Value]bool{}
+	isResult := func(al *ssa.Alloc) bool {
+		for i := 0; al.Comment != "" && i < f.Signature.Results().Len(); i++ {
+			if n := f.Signature.Results().At(i).Name(); n != "" && n == al.Comment {
+				return true
+			}
+		}
+		return false
+	}
+	for _, l := range f.Locals {
+		if isResult(l) {
+			named[l] = true
+		}
+	}
+	for _, b := range f.Blocks {
+		// (captured results are heap cells: not among the Locals)
+		for _, in := range b.Instrs {
+			if al, ok := in.(*ssa.Alloc); ok && isResult(al) {
+				named[al] = true
+			}
+		}
+	}
+	var out []ssa.Instruction
+	for _, b := range f.Blocks {
+		for _, in := range b.Instrs {
+			d, ok := in.(*ssa.Defer)
+			if !ok {
+				continue
+			}
+			mc, ok := d.Call.Value.(*ssa.MakeClosure)
+			if !ok {
+				continue
+			}
+			fn := mc.Fn.(*ssa.Function)
+			for i, bnd := range mc.Bindings {
+				if !named[bnd] || i >= len(fn.FreeVars) {
+					continue
+				}
+				fv := fn.FreeVars[i]
+				for _, fb := range fn.Blocks {
+					for _, fin := range fb.Instrs {
+						if st, ok := fin.(*ssa.Store); ok && st.Addr == ssa.Value(fv) {
+							out = append(out, fin)
+						}
+					}
+				}
+			}
+		}
+	}
+	return out
+}
+
 func runC18(c *CheckCtx) {
 	jobs := c.evalJobs([]string{"lisp.EVAL", "lisp.eval_ast", "lisp.do", "lisp.macroexpand"})
+	for _, j := range jobs {
+		if fnName(j.Fn) != "lisp.EVAL" {
+			continue
+		}
+		f := j.Fn
+		prev := j.Setup
+		j.Setup = func(tr *Tr, a *Act, st *State, args []Term) {
+			if prev != nil {
+				prev(tr, a, st, args)
+			}
+			// frame of the debugger's deferred reports: they leave EVAL's value and error alone
+			// (the step relation identifies errors up to re-positioning, so a re-wrapped error
+			// would otherwise go unnoticed)
+			stores := deferredOutcomeStores(f)
+			fname := fnName(f)
+			if len(stores) == 0 {
+				loc, _ := a.srcLine(f.Pos())
+				tr.obls = append(tr.obls, &Obligation{Name: fname + "/stepper/deferred-reports-leave-the-outcome-alone#1", Kind: "step", Fn: fname, Pos: loc,
+					Src: "no function deferred by EVAL assigns EVAL's named results", Guard: "true", Goal: "true"})
+			}
+			for i, sin := range stores {
+				loc, src := a.srcLine(sin.Pos())
+				tr.obls = append(tr.obls, &Obligation{Name: fmt.Sprintf("%s/stepper/deferred-reports-leave-the-outcome-alone/«%s»#%d", fname, normSrc(src), i+1), Kind: "step", Fn: fname, Pos: loc,
+					Src: "no function deferred by EVAL assigns EVAL's named results", Guard: "true", Goal: "false"})
+			}
+		}
+	}
 	c.runJobs(jobs, func(o *Obligation) bool {
 		return keepEval(o) && c.evalCaseOf(o.Pos) != "try"
 	})
